@@ -174,6 +174,22 @@ CLAIMED["C20"] = (
     "Trusted: TLC, the program generator (one line per case; a case that does not compile is reported), rustc.",
     "DESIGN §5 C20")
 
+CLAIMED["C15"] = (
+    "TLA+ specs with a ghost ownership ledger (Ownership.tla: ArrayConsumer/ArrayBuilder index arithmetic, every "
+    "unsafe read checked against the owner map; Destructure.tla: expansion pipeline FieldCheck/TypeAssert/"
+    "DropAssert/Reads over program descriptors) model-checked by TLC; every container state replayed with a "
+    "drop-ledger element type; every accepted destructure! descriptor compiled and run with ledger fields",
+    "Exhaustive within bounds: all histories of next / next_back / as_slice / as_mut_slice / clone / drop / "
+    "assert_is_empty / push / build / len / is_full over one or two containers, N = 0..3 (15k states quick, 242k "
+    "thorough): the window contents, the values handed to the caller in order, the exact set of already-dropped "
+    "values and the payload bits are compared at every state, and after running to completion every value has been "
+    "dropped exactly once; destructure!: every accepted shape (braced / tuple struct / tuple / array with bind, _, "
+    "bound and unbound rest at every position, arity 0..3) in plain, type-annotated, packed and generic flavours "
+    "and inside a const fn (655 programs).",
+    "Trusted: TLC; the harness' ledger type; rustc. Panicking paths are excluded as the property states. Tuples "
+    "beyond arity 3 and nested aggregates are not generated.",
+    "DESIGN §5 C15")
+
 NOT_YET = {}
 
 def main():
